@@ -51,6 +51,8 @@ def compare(exp, got, check_header=True):
             return 'error names record %s, expected %s' % (gnr, nr)
         return None
     if got['error'] is not None:
+        if exp.alt_error is not None and got['error'][0] == exp.alt_error[0] and (exp.alt_error[1] is None or got['error'][1] == exp.alt_error[1]):
+            return None
         return 'unexpected error %s: %s' % (got['error'][0], got['error'][2][:120])
     if not refql.same_records(exp.records, got['records'], exp.alts):
         return 'records differ'
